@@ -10,19 +10,26 @@ from .C13 import Cmp, fix_shared_structs
 from .C09 import offset_width_rule
 
 EXPLANATION = (
-    "Static decision of structural clauses of C05: (1) every (struct, field id, wire type) written by "
-    "the metadata writers of parquet_types.c and by the hand-rolled page-header writer in "
-    "carquet_page_writer_finalize equals a frozen parquet.thrift table, required fields are written "
-    "unconditionally; (2) the integer tags that go to disk raw (physical type, encoding, codec, page "
-    "type, repetition, converted type) equal the specification's values; (3) in the page writer the "
-    "header's uncompressed/compressed sizes are the sizes of the buffer given to and produced by "
-    "compress_data, the CRC covers exactly the appended bytes, num_values and encoding come from the "
-    "writer's state; (4) the file offset changes only by the size just written (and to 4 after the "
-    "magic); chunk offsets come from a running offset that advances by each chunk's size; the close "
-    "sequence is header, row group, metadata, length, magic; (5) structs defined twice in different "
-    "units have identical fields and every hand-written extern prototype equals the definition's "
-    "type; (6) compress_data appends the caller's raw bytes only under codec == UNCOMPRESSED, otherwise the "
-    "compressor's buffer and size (a chunk tagged with a codec never holds raw pages). Decides these clauses, not acceptance by an independent reader nor determinism of bytes.")
+    "Static decision of structural clauses of C05: (1) every (struct, field id, wire type) written by the "
+    "metadata writers of parquet_types.c and by the page-header writer equals a frozen parquet.thrift "
+    "table, required fields are written unconditionally; (2) the integer tags that go to disk raw equal "
+    "the specification's values; (3) carquet_page_writer_finalize, executed abstractly over 48 writer "
+    "configurations (level streams present or not, CRC on/off, statistics on/off, UNCOMPRESSED / SNAPPY; "
+    "buffers, the Thrift encoder, the CRC and the codec hooked): the body is rep, def, values in that "
+    "order, *uncompressed_size / field 2 are the body bytes, *compressed_size / field 3 are what the "
+    "codec produced, field 4 is the CRC of exactly the stored payload and is written iff CRC is on, the "
+    "type field is DATA_PAGE with field 5 present, num_values and encoding are the writer's, and the page "
+    "buffer is cleared, receives the header, then exactly the codec's output; the lazily built CRC tables "
+    "are built before every read of them; (4) offsets: the writer's file_offset changes only to 4 after "
+    "the magic and by the byte count handed to fwrite (directly or through a write helper); "
+    "carquet_row_group_writer_finalize executed for 1..3 columns records for chunk i the running offset "
+    "and its appended size; flush_row_group executed for 1..3 chunks copies offset, sizes, counts, type "
+    "and codec of each chunk into its ColumnChunk, sets data_page_offset to the same offset, starts the "
+    "row group at the file offset and advances it by the bytes written; (5) structs defined twice in "
+    "different units have identical fields and every hand-written extern prototype equals the "
+    "definition's type; (6) compress_data appends the caller's raw bytes only under codec == "
+    "UNCOMPRESSED; emitted match offsets fit their 16-bit field. Decides these clauses, not acceptance by "
+    "an independent reader nor determinism of bytes.")
 
 PT = "src/thrift/parquet_types.c"
 PW = "src/writer/page_writer.c"
